@@ -26,6 +26,9 @@ VERIF = os.path.dirname(os.path.dirname(os.path.abspath(__file__)))
 REPO = os.environ.get("CATII_REPO", "/repo")
 COQ = os.path.join(VERIF, "coq")
 CACHE = os.path.join(VERIF, ".cache")
+# where evidence/ and replays/ are written: /verif itself, except when a seeded change is being tried out
+# (harness/seedtest.py), whose verdicts must not overwrite the evidence of the unchanged tree
+OUT = os.environ.get("VERIF_OUT") or VERIF
 PY = "/venv/bin/python"
 NPROC = min(16, os.cpu_count() or 4)
 PER_FILE_TIMEOUT = 900          # seconds of coqc per .v file in the make build
@@ -487,7 +490,7 @@ class Ctx:
 
     # ---- verdicts ------------------------------------------------------
     def replay_path(self):
-        d = os.path.join(VERIF, "replays")
+        d = os.path.join(OUT, "replays")
         os.makedirs(d, exist_ok=True)
         self._replay_n += 1
         return os.path.join(d, "%s-%d.json" % (self.prop, self._replay_n))
@@ -524,8 +527,8 @@ class Ctx:
         ev = {"property_id": self.prop, "tier": self.tier, "seed": self.seed, "level": self.level,
               "coverage": cov, "assumptions": self.assumptions, "wall_s": round(wall, 2),
               "violations": len(self.violations), "known_findings_hit": [h[0] for h in self.known_hits], "notes": self.notes}
-        os.makedirs(os.path.join(VERIF, "evidence"), exist_ok=True)
-        with open(os.path.join(VERIF, "evidence", self.prop + ".json"), "w") as f:
+        os.makedirs(os.path.join(OUT, "evidence"), exist_ok=True)
+        with open(os.path.join(OUT, "evidence", self.prop + ".json"), "w") as f:
             json.dump(ev, f, indent=1, default=str)
         for sig, what in self.known_hits:
             print("KNOWN-FINDING: property=%s %s" % (self.prop, what))
